@@ -181,8 +181,21 @@ func verifC07Snapshot(s *state.Store) *verifC07View {
 		}
 	}
 
-	d := vs.TakeDump(s)
-	for _, r := range d.Rows("gateway-services") {
+	// raw rows of the derived tables only (canonical rendering as in vs.TakeDump, the other tables are skipped)
+	d := map[string][]map[string]interface{}{}
+	nVIPRows := 0
+	if err := s.WalkAllTables(func(table string, item interface{}) bool {
+		switch table {
+		case "gateway-services", "kind-service-names", "mesh-topology", "free-virtual-ips", "usage", "system-metadata":
+			d[table] = append(d[table], vs.ParseRow(vs.CanonJSON(item)))
+		case "service-virtual-ips":
+			nVIPRows++
+		}
+		return true
+	}); err != nil {
+		panic(err)
+	}
+	for _, r := range d["gateway-services"] {
 		port, _ := r["Port"].(float64)
 		fw, _ := r["FromWildcard"].(bool)
 		g := verifC07GW{gateway: verifC07Str(r, "Gateway", "Name"), service: verifC07Str(r, "Service", "Name"), gwKind: verifC07Str(r, "GatewayKind"),
@@ -190,10 +203,10 @@ func verifC07Snapshot(s *state.Store) *verifC07View {
 		v.gw = append(v.gw, g)
 		v.gwIDs[g.id()] = g
 	}
-	for _, r := range d.Rows("kind-service-names") {
+	for _, r := range d["kind-service-names"] {
 		v.ksn[verifC07Str(r, "Kind")+"|"+verifC07Str(r, "Service", "Name")] = true
 	}
-	for _, r := range d.Rows("mesh-topology") {
+	for _, r := range d["mesh-topology"] {
 		refs := map[string]bool{}
 		if m, ok := r["Refs"].(map[string]interface{}); ok {
 			for k := range m {
@@ -221,18 +234,18 @@ func verifC07Snapshot(s *state.Store) *verifC07View {
 	sort.Slice(v.vips, func(i, j int) bool {
 		return v.vips[i].peer+"|"+v.vips[i].name < v.vips[j].peer+"|"+v.vips[j].name
 	})
-	if len(v.vips) != len(d["service-virtual-ips"]) {
-		panic(fmt.Sprintf("verif C07: ServiceVirtualIPs() lists %d rows, the table holds %d", len(v.vips), len(d["service-virtual-ips"])))
+	if len(v.vips) != nVIPRows {
+		panic(fmt.Sprintf("verif C07: ServiceVirtualIPs() lists %d rows, the table holds %d", len(v.vips), nVIPRows))
 	}
-	for _, r := range d.Rows("free-virtual-ips") {
+	for _, r := range d["free-virtual-ips"] {
 		c, _ := r["IsCounter"].(bool)
 		v.free = append(v.free, verifC07Free{off: verifC07IP(verifC07Str(r, "IP")), counter: c})
 	}
-	for _, r := range d.Rows("usage") {
+	for _, r := range d["usage"] {
 		n, _ := r["Count"].(float64)
 		v.usage[verifC07Str(r, "ID")] = int(n)
 	}
-	for _, r := range d.Rows("system-metadata") {
+	for _, r := range d["system-metadata"] {
 		if verifC07Str(r, "Value") != "" {
 			v.flags[verifC07Str(r, "Key")] = true
 		}
